@@ -593,7 +593,11 @@ func (ex *Exec) applyContract(fr *Frame, st *State, fn *ssa.Function, ct *Contra
 	res := ex.havocResults(st, sig.Results(), ct.Name)
 	if ct.Opts["freshresult"] != "" && sig.Results().Len() == 1 {
 		// ASSUMED by the contract: the (single, map-typed) result is a newly made map
-		if _, isMap := sig.Results().At(0).Type().Underlying().(*types.Map); isMap {
+		_, isMap := sig.Results().At(0).Type().Underlying().(*types.Map)
+		if pt, isPtr := sig.Results().At(0).Type().Underlying().(*types.Pointer); isPtr {
+			_, isMap = pt.Elem().Underlying().(*types.Struct) // a newly allocated object
+		}
+		if isMap {
 			if t, isT := res.(Term); isT {
 				al := ex.allocSet(st)
 				ex.assume(st, sAnd(sx(">", t.S, "0"), sNot(sx("select", al, t.S))))
